@@ -619,6 +619,71 @@ func ruleR026(c *Ctx) {
 			c.Violation(key, genDecl.Pos(), "to find the callee of a %s the generated code consults %s, the optimizer only %s (missing: %s): a constant call can be folded to a different callee than the one the unoptimized program invokes", k, strings.Join(keysOf(g), ", "), strings.Join(keysOf(o), ", "), strings.Join(missing, ", "))
 		}
 	}
+	// the choice "static function or value" must not depend on the compile time scope: the optimizer has none
+	{
+		key := "funcGen#call-dispatch:static-function-choice"
+		nLookups := 0
+		var scoped []string
+		ast.Inspect(genDecl.Body, func(n ast.Node) bool {
+			ix, ok := n.(*ast.IndexExpr)
+			if !ok {
+				return true
+			}
+			sel, ok := ast.Unparen(ix.X).(*ast.SelectorExpr)
+			if !ok || sel.Sel.Name != "staticFunctions" {
+				return true
+			}
+			nLookups++
+			for _, gd := range c.GuardsDeep(ix) {
+				if containsNode(gd.Cond, func(y ast.Node) bool {
+					e, ok := y.(ast.Expr)
+					return ok && a.isCtx(info.TypeOf(e))
+				}) {
+					scoped = append(scoped, nodeStr(c.Fset, gd.Cond))
+				}
+			}
+			return true
+		})
+		// ... and only a name the parser resolved to a static function (Ident.IsFunc) is one: in the generator and in
+		// the optimizer alike (a local value of the same name hides the function)
+		resolvedTest := func(root ast.Node) (lookups, tested int) {
+			ast.Inspect(root, func(n ast.Node) bool {
+				ix, ok := n.(*ast.IndexExpr)
+				if !ok {
+					return true
+				}
+				sel, ok := ast.Unparen(ix.X).(*ast.SelectorExpr)
+				if !ok || sel.Sel.Name != "staticFunctions" {
+					return true
+				}
+				lookups++
+				for _, gd := range c.GuardsDeep(ix) {
+					if gs, ok := ast.Unparen(gd.Cond).(*ast.SelectorExpr); ok && gd.Val && gs.Sel.Name == "IsFunc" && isNamed(info.TypeOf(gs.X), modPath, "Ident") {
+						tested++
+						break
+					}
+				}
+				return true
+			})
+			return
+		}
+		gl, gt := resolvedTest(genDecl.Body)
+		ol, ot := 0, 0
+		for _, od := range optDecls {
+			l, t := resolvedTest(od.Body)
+			ol, ot = ol+l, ot+t
+		}
+		switch {
+		case nLookups == 0 || ol == 0:
+			c.Undecided(key, genDecl.Pos(), "lookup of static functions not found in the generator or the optimizer")
+		case gt < gl || ot < ol:
+			c.Violation(key, genDecl.Pos(), "a call by name is taken for a call of a static function without the test that the parser resolved the name to one (Ident.IsFunc; generator: %d of %d lookups tested, optimizer: %d of %d): a parameter, let or func of the same name is ignored, and since constant closures are substituted at parse time the result differs with and without the optimizer (func sqr(x) x+1; sqr(3) gives 4 resp. 9)", gt, gl, ot, ol)
+		case len(scoped) > 0:
+			c.Violation(key, genDecl.Pos(), "the generated code decides between a static function and a value of the same name by looking at the compile time scope (%s), the optimizer folds calls of static functions by name without any scope: a call like (sqr->sqr(3))(x->x+1) is folded to the static function's result but calls the argument when it is not optimized", strings.Join(scoped, ", "))
+		default:
+			c.OK(key, genDecl.Pos(), "whether a call by name goes to a static function depends on the name only, in the generator as in the optimizer")
+		}
+	}
 	for k, g := range gen {
 		if k == "MethodCall" || k == "FunctionCall" {
 			continue
